@@ -128,7 +128,7 @@ fn execute<'a>(tasks: &mut Vec<Option<Task<'a>>>, ops: &[Op], sh: &Shared, run: 
     let mut last_poll = vec![0u64; n];
     let mut polled = vec![false; n];
     let runnable = |i: usize, tasks: &Vec<Option<Task<'a>>>, last_poll: &Vec<u64>, polled: &Vec<bool>| tasks[i].is_some() && (!polled[i] || tls::last_wake(i * 2) > last_poll[i]);
-    let mut poll_task = |i: usize, tasks: &mut Vec<Option<Task<'a>>>, last_poll: &mut Vec<u64>, polled: &mut Vec<bool>, run: &mut Run| {
+    let poll_task = |i: usize, tasks: &mut Vec<Option<Task<'a>>>, last_poll: &mut Vec<u64>, polled: &mut Vec<bool>, run: &mut Run| {
         last_poll[i] = tls::tick();
         polled[i] = true;
         let waker = make_waker(i * 2);
@@ -191,7 +191,9 @@ fn execute<'a>(tasks: &mut Vec<Option<Task<'a>>>, ops: &[Op], sh: &Shared, run: 
                 budget -= 1;
                 if budget == 0 {
                     run.violate(deadlock.0, "livelock", format!("{}: tasks keep waking each other without finishing", what));
-                    return;
+                    if run.failed() {
+                        return;
+                    }
                 }
             }
             None => {
@@ -744,22 +746,30 @@ fn t_mpmc<M: RawMutex, A: RingBuf<Item = Tagged>>(cfg: &Cfg, ops: &[Op], run: &m
     for (i, id) in received.iter().enumerate() {
         if received[..i].contains(id) {
             run.violate("C08", "delivered-twice", format!("v{} was received twice", id));
-            return;
+            if run.failed() {
+                return;
+            }
         }
         if returned.contains(id) {
             run.violate("C08", "delivered-and-returned", format!("v{} was received and also handed back to its sender", id));
-            return;
+            if run.failed() {
+                return;
+            }
         }
         if !sent.iter().any(|(_, s)| s == id) {
             run.violate("C08", "unknown-value", format!("v{} was received but never sent", id));
-            return;
+            if run.failed() {
+                return;
+            }
         }
     }
     // the consumer that never gives up drains the channel until None: every accepted value arrives
     for id in accepted.into_inner() {
         if !received.contains(&id) {
             run.violate2("C08", "C11", "accepted-value-lost", format!("the send of v{} returned Ok, the channel was drained until None, but v{} was never received", id, id));
-            return;
+            if run.failed() {
+                return;
+            }
         }
     }
     // per-producer order survives any schedule
@@ -768,20 +778,26 @@ fn t_mpmc<M: RawMutex, A: RingBuf<Item = Tagged>>(cfg: &Cfg, ops: &[Op], run: &m
         let got: Vec<usize> = received.iter().filter_map(|id| order.iter().position(|o| o == id)).collect();
         if got.windows(2).any(|w| w[0] > w[1]) {
             run.violate("C09", "per-producer-order", format!("values of producer {} were sent in the order {:?} but received in the order {:?}", p, order, got.iter().map(|i| order[*i]).collect::<Vec<_>>()));
-            return;
+            if run.failed() {
+                return;
+            }
         }
     }
     // everything else was dropped exactly once with the future, the buffer or the channel
     if let Err(m) = lib_call(|| drop(chan)) {
         run.violate("C01", "panic", format!("dropping the channel panicked: {}", m));
-        return;
+        if run.failed() {
+            return;
+        }
     }
     for (_, id) in &sent {
         let expect = 1;
         // received and returned values were dropped by the tasks that obtained them
         if payload::drops(*id) != expect {
             run.violate("C08", "drop-count", format!("v{} was dropped {} times after everything is gone (received: {}, returned: {})", id, payload::drops(*id), received.contains(id), returned.contains(id)));
-            return;
+            if run.failed() {
+                return;
+            }
         }
     }
 }
